@@ -34,8 +34,8 @@ def judge(chk, scratch, trace, what, spec="FsRemoveTrace", describe=None, spec_d
 
 
 def describe(e):
-    return "%s on %s backend, link target %s, pattern %r -> err %r, remaining %s, expected %s, outside changed %s" % (
-        e.get("call"), e.get("backend"), e.get("target"), e.get("pattern"), e.get("err"), e.get("remaining"), e.get("after"), e.get("outsideChanged"))
+    return "%s on %s backend, link target %s, pattern %r, refused removal of %r -> err %r, remaining %s, expected %s, outside changed %s" % (
+        e.get("call"), e.get("backend"), e.get("target"), e.get("pattern"), e.get("fault"), e.get("err"), e.get("remaining"), e.get("after"), e.get("outsideChanged"))
 
 
 def run(chk, scratch):
@@ -57,9 +57,11 @@ def run(chk, scratch):
     chk.cov["model_scenarios"] = len(scen)
     if not thorough:
         rnd = random.Random(chk.seed)
+        faulty = [s for s in scen if s["fault"]]
+        scen = [s for s in scen if not s["fault"]]
         linked = [s for s in scen if s["target"] != "none"]
         plain = [s for s in scen if s["target"] == "none"]
-        scen = rnd.sample(linked, min(650, len(linked))) + rnd.sample(plain, min(150, len(plain)))
+        scen = rnd.sample(linked, min(650, len(linked))) + rnd.sample(plain, min(150, len(plain))) + rnd.sample(faulty, min(120, len(faulty)))
     chk.nontrivial += sum(1 for s in scen if s["target"] != "none" or s["pattern"])
     chk.sample({"scenario": scen[0]})
     inp = os.path.join(scratch, "c04-scen.ndjson")
